@@ -239,7 +239,10 @@ func c14ParseExec(c *c14Case) ([]Discrepancy, []string) {
 	return nil, trace
 }
 
-func init() { c14ParseHook = c14ParseExec }
+func init() {
+	c14ParseHook = c14ParseExec
+	c14TableHook = c14NodeTableRun
+}
 
 type c14ParseCase struct {
 	Level string  `json:"level"` // "refresh-step": replayed in-process
@@ -266,4 +269,66 @@ func TestC14Parse(t *testing.T) {
 		ds, _ := c14ParseExec(&c)
 		report(t, "C14", &pc, ds)
 	})
+}
+
+// TestC14NodeTable: one long-lived topology state is fed thousands of alternating descriptions (nodes leave and
+// come back, as after every fail-over or restart); after every publication the node table must hold exactly the
+// nodes of the description. (The lock-free map first used for the table lost entries after a few hundred
+// delete/insert rounds of the same keys: finding 23.)
+func c14NodeTableRun(rounds, seed int) []Discrepancy {
+	c14pCluster()
+	line := func(i int, master bool, mid string, slots string) string {
+		role := "slave"
+		if master {
+			role = "master"
+			mid = "-"
+		}
+		return fmt.Sprintf("%040d 10.0.0.%d:7000 %s %s 0 1 %d connected%s", i, i, role, mid, i, slots)
+	}
+	vt := core.NewVerifTopology(func(addr string) core.VerifInfo { return core.VerifInfo{LinkUp: true} })
+	for it := 0; it < rounds; it++ {
+		n := 3 + (it*7+seed)%9 // 3..11 replicas beside the three masters
+		desc := []string{line(1, true, "", " 0-5000"), line(2, true, "", " 5001-10000"), line(3, true, "", " 10001-16383")}
+		want := map[string]bool{"10.0.0.1:7000": false, "10.0.0.2:7000": false, "10.0.0.3:7000": false}
+		for i := 4; i < 4+n; i++ {
+			if (it+i+seed)%5 == 0 {
+				continue // this replica is away in this round
+			}
+			desc = append(desc, line(i, false, fmt.Sprintf("%040d", 1+i%3), ""))
+			want[fmt.Sprintf("10.0.0.%d:7000", i)] = true
+		}
+		if _, err := vt.Feed(strings.Join(desc, "\n")); err != nil {
+			return []Discrepancy{disc("C14/parse-valid-description-rejected", "round %d: %v", it, err)}
+		}
+		got := vt.Known()
+		ok := len(got) == len(want)
+		for a, isReplica := range want {
+			if r, present := got[a]; !present || r != isReplica {
+				ok = false
+			}
+		}
+		if !ok {
+			return []Discrepancy{disc("C14/parse-node-table-lost-entries", "after %d published descriptions on one topology state the node table holds %d entries %v; the description just adopted has %d nodes %v", it+1, len(got), got, len(want), want)}
+		}
+	}
+	return nil
+}
+
+type c14TableCase struct {
+	Level  string `json:"level"` // "node-table"
+	Rounds int    `json:"rounds"`
+	Seed   int    `json:"seed"`
+}
+
+func TestC14NodeTable(t *testing.T) {
+	rec := evidence.For("C14")
+	rounds := envInt("VERIF_C14_TABLE_ROUNDS", 6000)
+	if thorough() {
+		rounds = envInt("VERIF_C14_TABLE_ROUNDS", 400000)
+	}
+	seed := envInt("VERIF_SEED", 1)*131 + envInt("VERIF_SHARD", 0)*17
+	c := c14TableCase{Level: "node-table", Rounds: rounds, Seed: seed}
+	rec.Add("node_table_publications_checked", rounds)
+	rec.CaseKey(uint64(0x14aa)+uint64(seed), true, func() interface{} { return c }, "refresh-node-table-after-many-publications")
+	report(t, "C14", &c, c14NodeTableRun(rounds, seed))
 }
